@@ -21,19 +21,19 @@ COMPILERS = {"rel": "g++", "asan": "clang++", "tsan": "clang++"}
 # property table. engine "rc": a rapidcheck executable built in the `rel` flavour.
 # quick/thorough: (multiplier on each sub-check's base case count, number of parallel seeds)
 PROPS = {
-    "C20": dict(engine="rc", exe="c20", quick=(1, 6), thorough=(20, 16),
+    "C20": dict(engine="rc", exe="c20", quick=(2, 8), thorough=(20, 16),
                 assumptions=["'attained at the model's own top/bottom' is asserted for models whose min depth is 0 and whose max depth is constant (the documentation calls the top temperature the surface temperature)",
                              "the 100-term plate series may overshoot next to the surface at young ages (Gibbs): 9% of the jump is allowed at depths shallower than 2% of the plate thickness",
                              "slab probes come from the planar construction validated by C06; ambient = background adiabat (single-feature worlds)"]),
-    "C05": dict(engine="rc", exe="c05", quick=(1, 6), thorough=(20, 16),
+    "C05": dict(engine="rc", exe="c05", quick=(2, 8), thorough=(20, 16),
                 assumptions=["oracles are written from the parameter documentation; where it is not specific (smooth composition, Euler-angle convention, slab/fault sentinel depths) only the weaker documented part is asserted",
                              "ridge models are checked in cartesian worlds with a ridge along x = const (distance to the ridge is then |x - x_ridge| by definition)",
                              "slab/fault distances come from the planar construction validated by C06"]),
-    "C18": dict(engine="rc", exe="c18", quick=(1, 6), thorough=(20, 16),
+    "C18": dict(engine="rc", exe="c18", quick=(2, 8), thorough=(20, 16),
                 extra_builds=[("rel", ["gwb-grid"], {"VERIF_GWB_GRID": "wb/bin/gwb-grid"})],
                 assumptions=["ASCII VTU output (6 significant digits): node values are compared with 2e-5 relative tolerance at the exact lattice node; a node whose library answer changes between the printed and the exact position is skipped",
                              "sphere grids: mesh validity, Depth and node values are checked, the node lattice itself is not re-derived"]),
-    "C17": dict(engine="rc", exe="c17", quick=(1, 6), thorough=(20, 16),
+    "C17": dict(engine="rc", exe="c17", quick=(2, 8), thorough=(20, 16),
                 extra_builds=[("rel", ["gwb-dat"], {"VERIF_GWB_DAT": "wb/bin/gwb-dat"})],
                 assumptions=["values are compared as the text an output stream with default precision produces (what the tool uses)",
                              "'reported' for a malformed row = non-zero exit status or an error message on stdout/stderr"]),
@@ -41,19 +41,19 @@ PROPS = {
                 extra_builds=[("tsan", ["c14_threads", "gwb-grid"], {"VERIF_TSAN_EXE": "c14_threads", "VERIF_TSAN_GRID": "wb/bin/gwb-grid"})],
                 assumptions=["schedules are sampled, not enumerated: ThreadSanitizer flags an unsynchronised conflicting pair whenever both accesses execute, but a race on a path no generated query reaches stays invisible",
                              "worlds without random models (the statement's scope)"]),
-    "C11": dict(engine="rc", exe="c11", quick=(1, 6), thorough=(20, 16),
+    "C11": dict(engine="rc", exe="c11", quick=(2, 8), thorough=(20, 16),
                 assumptions=["the depth used by a feature is observed by bisection on the membership indicator (resolves to 1e-10 m, compared with 1 mm tolerance)",
                              "every corner gets the bare '[value]' entry as documented default"]),
-    "C10": dict(engine="rc", exe="c10", quick=(1, 6), thorough=(20, 16),
+    "C10": dict(engine="rc", exe="c10", quick=(2, 8), thorough=(20, 16),
                 assumptions=["trenches bend by at most 25 degrees and probe points sit 2..30 km beside the trench, so the foot of a point generated beside trench segment k lies on segment k-1, k or k+1",
                              "models are uniform (values recognisable exactly)"]),
-    "C07": dict(engine="rc", exe="c07", quick=(1, 6), thorough=(20, 16),
+    "C07": dict(engine="rc", exe="c07", quick=(2, 8), thorough=(20, 16),
                 assumptions=["slab/fault shortcuts are switched off through the GWB_VERIF hook (infinite bounding box and length cut-off) at parse time; both worlds are built from the same text in one process",
                              "the nearest-triangle search is compared with a scan of the triangles the Surface object itself exposes; the triangulation as such is C11's subject"]),
-    "C06": dict(engine="rc", exe="c06", quick=(1, 6), thorough=(20, 16),
+    "C06": dict(engine="rc", exe="c06", quick=(2, 8), thorough=(20, 16),
                 assumptions=["cartesian worlds; the dip point is placed 5e7 m from the trench; feet within 0.1% of a trench end, within 1 mm of a segment end, or with two segments tying within 1 m are skipped (the statement fixes no rule there)",
                              "tolerance 1 mm + 1e-9 x coordinate scale on both distances"]),
-    "C08": dict(engine="rc", exe="c08", quick=(1, 6), thorough=(20, 16),
+    "C08": dict(engine="rc", exe="c08", quick=(2, 8), thorough=(20, 16),
                 assumptions=["a plume's 'rotation angles' are turned with the world (they describe the ellipse orientation in map view)",
                              "velocities are not compared (raw cartesian components, not co-rotated)",
                              "mismatches where the original world's own answer changes within 2 cm / 2e-7 degrees are counted as boundary-ambiguous and skipped"]),
@@ -71,10 +71,10 @@ PROPS = {
     "C16": dict(engine="rc", exe="c16", quick=(1, 4), thorough=(20, 16),
                 assumptions=["the native reference world receives exactly the same sequence of calls as the wrapped one (random models draw per call)",
                              "declaration files are observed by listing a scratch working directory"]),
-    "C09": dict(engine="rc", exe="c09", quick=(1, 4), thorough=(20, 16),
+    "C09": dict(engine="rc", exe="c09", quick=(2, 8), thorough=(20, 16),
                 assumptions=["2D and 3D answers are compared to 1e-7 relative (the mapping is recomputed independently, so the mapped point can differ by rounding); mismatches next to a discontinuity of the 3D answer itself are skipped",
                              "velocity convention asserted for cartesian worlds only, as in the statement"]),
-    "C04": dict(engine="rc", exe="c04", quick=(1, 6), thorough=(15, 16),
+    "C04": dict(engine="rc", exe="c04", quick=(2, 8), thorough=(15, 16),
                 assumptions=["boundary points are asserted only where coordinates are exactly representable (cartesian lattice); elsewhere a 1e-9 relative band is skipped",
                              "plumes are kept away from the +-180 meridian here (longitude aliases of plumes belong to C08)"]),
     "C02": dict(engine="rc", exe="c02", quick=(1, 6), thorough=(15, 16),
@@ -83,7 +83,7 @@ PROPS = {
                              "velocity: only 'a slab/fault without velocity models leaves the velocity as it was' is asserted"]),
     "C01": dict(engine="rc", exe="c01", quick=(1, 6), thorough=(15, 16),
                 assumptions=["random models are excluded (C15 covers them)", "'stand-alone' = the same entry point with a one-element list on a twin world built from the same file, plus temperature()/composition()/grains()"]),
-    "C03": dict(engine="rc", exe="c03", quick=(1, 4), thorough=(20, 16),
+    "C03": dict(engine="rc", exe="c03", quick=(2, 8), thorough=(20, 16),
                 assumptions=["'outside every feature' is established by construction (far points) or by the code's own tag == -1",
                              "background closed form evaluated in double with relative tolerance 1e-13"]),
     "C19": dict(engine="rc", exe="c19", quick=(1, 4), thorough=(12, 16),
